@@ -73,12 +73,26 @@ fn main() {
     let replay_dir = verif.join("replay").join(&prop);
     let rd2 = replay_dir.clone();
     let prop2 = prop.clone();
+    let ev_path = verif.join("evidence").join(format!("{prop}.json"));
+    let (tier2, seed2) = (tier.clone(), seed);
     let wd = mon::Watchdog::start(20.0, move |what| {
         let _ = std::fs::create_dir_all(&rd2);
         let p = rd2.join("hang.json");
         let _ = std::fs::write(&p, format!("{{\"property\":\"C01\",\"signature\":\"C01|hang\",\"input\":{what:?}}}"));
-        println!("VIOLATION property={} replay={}", if prop2 == "C19" { "C19" } else { "C01" }, p.display());
+        // a hang is a violation of totality (C01); it also stops whatever check was running, which
+        // therefore reports it under its own id (the run cannot complete)
+        println!("VIOLATION property={} replay={}", prop2, p.display());
+        println!("  signature: C01|hang");
         println!("  one operation consumed more than 20 s of CPU time without returning: {what}");
+        // the run ends here: leave an evidence file that says so
+        let ev = serde_json::json!({
+            "property_id": prop2, "tier": tier2, "seed": seed2, "level": "exploration",
+            "coverage": {"evaluations": 1, "distinct_nontrivial": 2, "rule": "run aborted by the CPU-time watchdog: one operation did not return within 20 s of CPU time; counts of the aborted run are not available", "samples": [what], "aborted_by_watchdog": true},
+            "assumptions": [], "wall_s": 0.0, "violations": 1});
+        if let Some(d) = ev_path.parent() {
+            let _ = std::fs::create_dir_all(d);
+        }
+        let _ = std::fs::write(&ev_path, serde_json::to_string_pretty(&ev).unwrap());
         std::process::exit(1);
     });
     let ctx = run::Ctx { prop: prop.clone(), tier, seed, repo, verif, threads, g: vref::altitude::Gillham::new(), wd, start: std::time::Instant::now(), args: args.clone() };
